@@ -62,8 +62,8 @@ ORIENT = ("node-edge", "edge-node", "mixed")
 
 def plan(tier):
     if tier == "quick":
-        return {"roundtrip": 6000, "graph-order": 2500, "class": 3000, "collide": 300}
-    return {"roundtrip": 240000, "graph-order": 100000, "class": 120000, "collide": 4000}
+        return {"roundtrip": 5400, "graph-order": 2400, "class": 2700, "collide": 300}
+    return {"roundtrip": 216000, "graph-order": 96000, "class": 108000, "collide": 4000}
 
 
 PAIRS = {
@@ -80,9 +80,9 @@ def floors(tier):
     f = {}
     for p, classes in PAIRS.items():
         for c in classes:
-            f[f"pair:{p}:{c}"] = 1500 * k
+            f[f"pair:{p}:{c}"] = 1300 * k
     for c in C2C:
-        f[f"class:{c}"] = 400 * k
+        f[f"class:{c}"] = 350 * k
     for o in ORDERS:
         f[f"graph-order:{o}"] = 300 * k
     f.update({
@@ -90,7 +90,7 @@ def floors(tier):
         "graph-trigger:edge-vertices-inserted-first": 800 * k, "graph-trigger:node-vertices-inserted-first": 400 * k,
         "feat:isolated-node": 700 * k, "feat:empty-edge": 1000 * k, "feat:multi-edge": 1200 * k, "feat:explicit-id": 4000 * k,
         "feat:node-attrs": 2000 * k, "feat:edge-attrs": 3000 * k, "feat:net-attrs": 2000 * k,
-        "cast:int": 1000 * k, "cast:none-str": 1000 * k, "hif:class-checked": 5000 * k,
+        "cast:int": 1000 * k, "cast:none-str": 1000 * k, "hif:class-checked": 4500 * k,
         f"again:{AGAIN_TO}": 12000 * k, f"again:{AGAIN_FROM}": 6000 * k, "again:mutated-in-place": 2500 * k,
         "rejected:colliding-cast": 200 if tier == "quick" else 2500,
     })
